@@ -328,7 +328,8 @@ def clause_foreign_routing_id(prog, rep):
                   % ("any unique index" if s_.stmt.conflict_any else s_.stmt.conflict_cols), s_.loc())
     fs = prog.find(adt="MdkMemoryStorage", name="save_group", trait="GroupStorage")
     for f in fs:
-        refuses = any(True for _ in f.aggregates("GroupError", "InvalidParameters")) and any(c.name in ("ne", "eq") for c in f.live_calls())
+        refuses = any(True for g in prog.family(f) for _ in g.aggregates("GroupError", "InvalidParameters")) and \
+            any(c.name in ("ne", "eq") for g in prog.family(f) for c in g.live_calls())
         rep.check(refuses, "existing-group-untouched", "memory/save_group/foreign-routing-id-collides",
                   "the memory backend refuses a record whose nostr_group_id belongs to a different group",
                   "the memory backend no longer refuses a nostr_group_id that belongs to a different group", f.loc())
@@ -468,6 +469,20 @@ def validation_refusals(prog, f, limits, depth=0, first_arg=2):
                         state += 1
                         continue
                     out.append({"atoms": atoms, "bound": min(bounds), "loc": c.loc()})
+    # ... or by a named adaptor handed to map_err as a function item (`.map_err(into_invalid_params)`)
+    for c in f.live_calls():
+        if c.name not in ("map_err", "or_else") or not c.args or "p" not in c.args[0]:
+            continue
+        for a in c.args[1:]:
+            fnp = a.get("c", {}).get("fn") if isinstance(a.get("c"), dict) else None
+            g = prog.fns.get(fnp) if fnp else None
+            if g is None or not any(x.get("k") == "agg" and x.get("variant") == "InvalidParameters" for _, x in g.stmts()):
+                continue
+            atoms, bounds = _describe_condition(prog, f, c.args[0]["p"][0], limits, first_arg)
+            if not bounds or not atoms:
+                state += 1
+                continue
+            out.append({"atoms": atoms, "bound": min(bounds), "loc": c.loc()})
     # validation moved into a helper of the same crate: its refusals count as this method's, with the helper's parameters mapped back
     if depth < 2:
         for c in f.live_calls():
